@@ -30,7 +30,7 @@ theorem resolve_own_ns (dns : Str) (key : Option (Str × Str)) (ns n : Str)
     by_cases h1 : kns = []
     · simp [h1] at h; exact h.1.symm
     · by_cases h2 : kns = dns
-      · simp [h1, h2] at h; exact h.1.symm
+      · subst h2; simp [h1] at h; exact h.1.symm
       · simp [h1, h2] at h
 
 /-- … for every value string -/
